@@ -51,6 +51,8 @@ func c17(tier string) []*explore.Scenario {
 	for _, kind := range []string{"stuck-writer-then-failing-reader", "both-while-forwarder-busy"} {
 		out = append(out, c17DoubleFault("C17", kind, 2))
 	}
+	// finer granularity (a scheduling point after every Unlock as well) on the small core scenarios
+	out = append(out, fineGrained(c17AttachRacesRouting("C17", "succeeds", 1), c17ReattachRacesTraffic("C17", 3, 1), c17DoubleFault("C17", "both-while-forwarder-busy", 1))...)
 	return out
 }
 
